@@ -357,6 +357,16 @@ class SimBackend(object):
                 self.fired.get('tl-fault-not-applicable(no limit passed)',
                                0) + 1
             fault = None
+        if fault is None and self.cfg.get('coherent_tl') and \
+                tl is not None and float(tl) < 1e-3:
+            # a back end that is given less time than any solve takes stops
+            # on its limit, with or without an incumbent (C18 histories whose
+            # solves carry different limits: a cut-short solve in the middle)
+            r = random.Random(self.cfg.get('choice_seed', 0) * 31 +
+                              self.round)
+            fault = {'kind': r.choice(['tl-incumbent', 'tl-no-incumbent']),
+                     'values': r.choice(['zeros', 'garbage', 'stale'])}
+            rec['coherent_tl'] = True
 
         if self.policy == 'real' and fault is None:
             return self._real(solver, lp, rec, kw)
